@@ -628,7 +628,7 @@ class Gen:
                 v = r.choice(vs)
             else:
                 v = r.choice(["i", "j", "k", "l", "ii", "jj"])
-            lo, hi = self.bounds(vs)
+            lo, hi = self.bounds([x for x in vs if x != v])   # (the front end resolves `v` in its own bounds to the new iterator)
             body = self.block([x for x in vs if x != v] + [v], loopnames + [v], depth - 1, ind + "    ", r.choice([1, 1, 2, 3]))
             return [f"{ind}for {v} in seq({lo}, {hi}):"] + body
         c = self.cond(vs, 1)
@@ -790,6 +790,25 @@ def build_module(tmpdir, modname, procs):
 
 def proc_source(body_lines):
     return "@proc\n" + "\n".join(body_lines)
+
+
+def tree_diff(real, model):
+    """first differing subtree (real, model) of the exported procedures"""
+    def go(a, b, path):
+        if a == b:
+            return None
+        if isinstance(a, list) and isinstance(b, list) and len(a) == len(b) and a and isinstance(a[0], str) and a[0] == b[0]:
+            for k, (x, y) in enumerate(zip(a, b)):
+                d = go(x, y, path + [k])
+                if d:
+                    return d
+        if isinstance(a, list) and isinstance(b, list) and len(a) == len(b) and (not a or not isinstance(a[0], str)):
+            for k, (x, y) in enumerate(zip(a, b)):
+                d = go(x, y, path + [k])
+                if d:
+                    return d
+        return {"path": path, "real": a, "model": b}
+    return go([real["preds"], real["body"]], [model["preds"], model["body"]], [])
 
 
 # ------------------------------------------------------------------------------------------------
@@ -961,8 +980,10 @@ class Checker:
                 ctx.violation(KEY_GENERIC + ":" + stream,
                               f"simplify changed the value of an index expression / the executed statements of "
                               f"{r['label']}: valuation {w['valuation']} config {w['config']} difference {d}", replay)
-        if model_same is False and w is None:
-            self.model_gap.append((r, m))
+        if model_same is False:
+            r["model_diff"] = tree_diff(r["after_s"], m) if (m and m.get("ok") and r["after_s"]) else None
+            if w is None:
+                self.model_gap.append((r, m))
 
     model_gap: list = []
 
@@ -1067,7 +1088,7 @@ def expr_stream(chk, ctx, tmpdir, drv_reqs):
         for d in range(r.choice([0, 1, 2, 2, 3])):
             if r.random() < 0.7:
                 v = r.choice(["i", "j", "k"]) if r.random() < 0.85 or not loops else r.choice([l[0] for l in loops])
-                lo, hi = g.bounds(body_vs)
+                lo, hi = g.bounds([x for x in body_vs if x != v])
                 lines.append(f"{ind}for {v} in seq({lo}, {hi}):")
                 loops.append((v, lo, hi))
                 body_vs = [x for x in body_vs if x != v] + [v]
@@ -1214,8 +1235,10 @@ def run(ctx):
     for r, m in chk.model_gap[:5]:
         ctx.violation(KEY_MODEL + ":" + r["stream"],
                       f"real simplify and the Lean model disagree on {r['label']} (no value change found on the box)",
-                      {"source": r["source"], "real_after": r.get("printed_after"), "model": m}, no_input=True)
+                      {"source": r["source"], "real_after": r.get("printed_after"), "first_difference": r.get("model_diff"),
+                       "model": m}, no_input=True)
     ctx.extra["model_gaps"] = len(chk.model_gap)
+    ctx.extra["model_gap_diffs"] = [{"label": r["label"], "diff": r.get("model_diff")} for r, _ in chk.model_gap[:20]]
 
 
 _trace_cases = []
